@@ -666,12 +666,12 @@ class Stage:
             raise Exception("Dependency on controls not supported yet for stage.der")
         ode = self._ode()
         if depends_on(expr,self.t) or nominal_symbols:
-            return jtimes(expr, vertcat(self.x, self.t, *nominal_symbols), vertcat(ode(x=self.x, u=self.u, z=self.z, p=vertcat(self.p, self.v), t=self.t)["ode"], 1, *der_symbols))
+            return jtimes(expr, vertcat(self.x, self.t, *nominal_symbols), vertcat(ode(x=self.x, u=self.u, z=self.z, p=self._pv, t=self.t)["ode"], 1, *der_symbols))
         else:
             if expr in self.states:
-                return jtimes(expr, self.x, ode.call(dict(x=self.x, u=self.u, z=self.z, p=vertcat(self.p, self.v), t=self.t),True,False)["ode"])
+                return jtimes(expr, self.x, ode.call(dict(x=self.x, u=self.u, z=self.z, p=self._pv, t=self.t),True,False)["ode"])
             else:
-                return jtimes(expr, self.x, ode(x=self.x, u=self.u, z=self.z, p=vertcat(self.p, self.v), t=self.t)["ode"])
+                return jtimes(expr, self.x, ode(x=self.x, u=self.u, z=self.z, p=self._pv, t=self.t)["ode"])
 
 
     def integral(self, expr, grid='inf',refine=1):
@@ -961,6 +961,15 @@ class Stage:
         return MX(0, 1) if len(arg)==0 else vvcat(arg)
 
     @property
+    def _pv(self):
+        # Parameters and variables in the order in which the methods supply them to the system functions:
+        # plain and per-interval quantities first, then the B-spline signals (variables before parameters)
+        arg = self.parameters['']+self.parameters['control']+self.parameters['control+']
+        arg += self.variables['']+self.variables['control']+self.variables['control+']
+        arg += self.variables['bspline']+self.parameters['bspline']
+        return MX(0, 1) if len(arg)==0 else vvcat(arg)
+
+    @property
     def p_global_list(self): return self.parameters['']
 
     @property
@@ -1194,7 +1203,7 @@ class Stage:
             t = MX.sym('t', Sparsity(1, 1))
         assert not depends_on(expr,self.DT), "Your ODE right-hand-side depends on DT; not supported."
         assert not depends_on(expr,self.DT_control), "Your ODE right-hand-side depends on DT_control; not supported."
-        ret = Function('ode', [self.x, self.u, self.z, vertcat(self.p, self.v), t], [ode, alg, quad], ["x", "u", "z", "p", "t"], ["ode","alg","quad"])
+        ret = Function('ode', [self.x, self.u, self.z, self._pv, t], [ode, alg, quad], ["x", "u", "z", "p", "t"], ["ode","alg","quad"])
         assert not ret.has_free()
         return ret
 
@@ -1218,7 +1227,7 @@ class Stage:
         t = self.t
         if not depends_on(vertcat(next,quad), self.t):
             t = MX.sym('t', Sparsity(1, 1))
-        return Function('diffeq', [self.x, self.u, vertcat(self.p, self.v), t, self.DT, self.DT_control, MX(0,1)], [next, MX(), quad, MX(), MX(0, 1), MX()], ["x0", "u", "p", "t0", "DT", "DT_control","z0"], ["xf","poly_coeff","qf","poly_coeff_q","zf","poly_coeff_z"])
+        return Function('diffeq', [self.x, self.u, self._pv, t, self.DT, self.DT_control, MX(0,1)], [next, MX(), quad, MX(), MX(0, 1), MX()], ["x0", "u", "p", "t0", "DT", "DT_control","z0"], ["xf","poly_coeff","qf","poly_coeff_q","zf","poly_coeff_z"])
 
     def _expr_apply(self, expr, **kwargs):
         """
@@ -1612,7 +1621,7 @@ class Stage:
             raise Exception(msg)
         N, M = stage._method.N, stage._method.M
 
-        expr_f = Function('expr', [stage.t, stage.x, stage.xq, stage.z, stage.u, vertcat(stage.p, stage.v), stage.t0, stage.T], [expr])
+        expr_f = Function('expr', [stage.t, stage.x, stage.xq, stage.z, stage.u, stage._pv, stage.t0, stage.T], [expr])
         assert not expr_f.has_free(), str(expr_f.free_mx())
 
 
